@@ -99,6 +99,21 @@ Definition check_stamp (streams : list (list sev)) (i : nat) : bool :=
     forallb (fun o => match o with Some (_, s) => zz_eqb s expect | None => false end) parts
   else false.
 
+(* the same facts stated separately, per position of the delivered stream: a watermark is strictly below the
+   largest valid keyed timestamp emitted before it (to any operator), and watermarks never decrease along a stream *)
+Definition check_below (streams : list (list sev)) (i : nat) : bool :=
+  let parts := map (before_nth_sw i []) streams in
+  let fw := flat_map (fun o => match o with Some (l, _) => l | None => [] end) parts in
+  match fw with
+  | [] => true
+  | x :: r => let mx := zmax_list x r in
+              if go_zero_time <=? mx then
+                forallb (fun o => match o with Some (_, s) => tm (fst s) (snd s) <? mx | None => true end) parts
+              else true
+  end.
+Definition sw_instants (st : list sev) : list Z :=
+  flat_map (fun e => match e with SW s => [tm (fst s) (snd s)] | _ => [] end) st.
+
 Definition count_sw (st : list sev) : nat :=
   length (filter (fun e => match e with SW _ => true | _ => false end) st).
 
@@ -108,7 +123,9 @@ Definition check_pipe (nops : N) (ops : list pop) (streams : list (list sev)) : 
   let nw := count_pw ops in
   flag (list_eqb (list_eqb sev_eqb) streams model) 2 ++
   flag (forallb (fun st => Nat.eqb (count_sw st) nw) streams && Nat.eqb (length streams) (N.to_nat nops)) 15 ++
-  flag (forallb (check_stamp streams) (seq 0 nw)) 14.
+  flag (forallb (check_stamp streams) (seq 0 nw)) 14 ++
+  flag (forallb (check_below streams) (seq 0 nw)) 103 ++
+  flag (forallb (fun st => nondecreasing (sw_instants st)) streams) 102.
 
 (* ---------- (e) a whole source runner reading a source to its end ----------
    Wall-clock ticker watermarks may or may not occur, so only schedule-independent facts are compared: the keyed
@@ -130,7 +147,9 @@ Definition check_run (nops : N) (routed : list (N * N * pbts)) (streams : list (
   flag (list_eqb (list_eqb sev_eqb) (map keyed_of streams) expect &&
         forallb (fun st => match keyed_of (after_last_sw st []) with [] => true | _ => false end) streams) 2 ++
   flag (forallb (fun st => Nat.eqb (count_sw st) nw) streams && Nat.eqb (length streams) (N.to_nat nops) && Nat.leb 1 nw) 15 ++
-  flag (forallb (check_stamp streams) (seq 0 nw)) 14.
+  flag (forallb (check_stamp streams) (seq 0 nw)) 14 ++
+  flag (forallb (check_below streams) (seq 0 nw)) 103 ++
+  flag (forallb (fun st => nondecreasing (sw_instants st)) streams) 102.
 
 (* ---------- (b) TimerRegistry ---------- *)
 Definition rops_of (ops : list robs) : list rop :=
